@@ -246,7 +246,10 @@ CallFn(C, name, args, st) ==
         IF Bad(r.st) THEN RV(VVoid, r.st)
         ELSE IF Len(r.vs) # Len(fn.params) THEN RV(VVoid, Fault(r.st, "stuck:arity"))
         ELSE IF r.st.depth + 1 >= MaxDepth THEN RV(VVoid, Fault(r.st, "fault:depth"))
-        ELSE LET inner == [r.st EXCEPT !.env = [k \in 1..Len(fn.params) |-> [n |-> fn.params[k], v |-> r.vs[k]]],
+        ELSE LET params == [k \in 1..Len(fn.params) |-> [n |-> fn.params[k], v |-> r.vs[k]]]
+                 \* 8.1 static scoping: the callee starts from its parameters only.  INTERP_DYNAMIC_SCOPE: the
+                 \* tree-walking evaluator keeps one symbol stack, so the caller's locals stay visible in the callee.
+                 inner == [r.st EXCEPT !.env = IF HasDev(C, "INTERP_DYNAMIC_SCOPE") THEN r.st.env \o params ELSE params,
                                        !.depth = @ + 1]
                  b == ExecSeq(C, fn.body, 1, inner)
                  back == [b.st EXCEPT !.env = r.st.env, !.depth = r.st.depth] IN
